@@ -599,7 +599,10 @@ func compareAndWriteFile(filePath string, b []byte) (bool, error) {
 			return false, err
 		}
 
-		if err := os.WriteFile(filePath, b, 0775); err != nil {
+		// Write to a temp file and rename it into place, so that a crash can
+		// never leave an empty or half-written metadata file behind. The temp
+		// name must not match any registered metadata suffix.
+		if err := writeFileAtomic(filePath, b, 0775); err != nil {
 			return false, err
 		}
 		return true, nil
@@ -630,4 +633,27 @@ func compareAndWriteFile(filePath string, b []byte) (bool, error) {
 		return false, err
 	}
 	return true, nil
+}
+
+// writeFileAtomic creates filePath with content b such that filePath either
+// does not exist or has the full content.
+func writeFileAtomic(filePath string, b []byte, perm os.FileMode) error {
+	tmp, err := os.CreateTemp(filepath.Dir(filePath), "tmp-*")
+	if err != nil {
+		return err
+	}
+	_, err = tmp.Write(b)
+	if closeErr := tmp.Close(); err == nil {
+		err = closeErr
+	}
+	if err == nil {
+		err = os.Chmod(tmp.Name(), perm)
+	}
+	if err == nil {
+		err = os.Rename(tmp.Name(), filePath)
+	}
+	if err != nil {
+		os.Remove(tmp.Name())
+	}
+	return err
 }
